@@ -319,8 +319,12 @@ def main(argv=None) -> int:
         wall_s=round(wall, 2),
         violations=len(new_violations),
     )
-    os.makedirs(os.path.join(VERIF, "evidence"), exist_ok=True)
-    with open(os.path.join(VERIF, "evidence", f"{prop}.json"), "w") as f:
+    # evidence describes runs against /repo itself; trial runs against a scratch tree (VERIF_REPO) keep theirs apart
+    evdir = os.path.join(VERIF, "evidence")
+    if os.path.realpath(os.environ.get("VERIF_REPO", "/repo")) != "/repo":
+        evdir = os.path.join(tempfile.gettempdir(), "yawverif_trial_evidence")
+    os.makedirs(evdir, exist_ok=True)
+    with open(os.path.join(evdir, f"{prop}.json"), "w") as f:
         json.dump(evidence, f, indent=1, sort_keys=True, default=_jdefault)
 
     brief = {k: v for k, v in coverage.items() if k not in ("rule", "samples")}
